@@ -261,6 +261,13 @@ func (r *Report) finish(meta propertyMeta, tier string, seed int, evidenceDir st
 		}
 	}
 	sort.Strings(r.Assumptions)
+	if r.Assumptions == nil {
+		r.Assumptions = []string{}
+	}
+	r.Assumptions = append(r.Assumptions, "trusted base: go/types and go/ssa of golang.org/x/tools v0.29.0 represent the program faithfully; the analysed tree is the one `go list ./...` reports for GOARCH="+strings.Join(arch, ",")+" without build tags or test files")
+	if r.Notes == nil {
+		r.Notes = []string{}
+	}
 	ev := map[string]any{
 		"property_id": r.Property,
 		"tier":        tier,
